@@ -252,8 +252,18 @@ def run_case(case, tier):
         if inj is None and case.get("n", 0) % 4 == 0:
             # the same Parser object has just refused a conflicting version of this closure (another directory): what is
             # left behind must not turn into a conflict of the clean version, nor hide one file from being read
-            bad = inject(prog, rng.choice(["msg_msg", "module_id", "host_id", "name:constants:message_defs", "name:aliases:struct_defs"]),
-                         rng, "any", 0, "last")
+            how = rng.choice(["msg_msg", "module_id", "host_id", "name:constants:message_defs", "name:aliases:struct_defs", "slip", "slip"])
+            if how == "slip":
+                # an authoring slip the parser reports with a plain python exception (no 'fields' key, division by zero,
+                # an empty field list): also a refusal, also followed by a second try
+                tgt = rng.choice(list(prog["files"]))
+                slip = rng.choice(["message_defs:\n  XSLIP:\n    id: 9871\n", "constants:\n  XSLIP: 10 / 0\n",
+                                   "struct_defs:\n  XSLIP:\n    fields: {}\n"])
+                sect = slip.split(":")[0]
+                body = slip.split("\n", 1)[1].rstrip("\n")
+                bad = {"files": dict(prog["files"], **{tgt: add_entry(prog["files"][tgt], sect, body, "last")})}
+            else:
+                bad = inject(prog, how, rng, "any", 0, "last")
             if bad is not None:
                 broot = G.write_closure(dict(prog, files=bad["files"]), work / "refused_version")
                 try:
